@@ -120,6 +120,10 @@ def spellings(rng, meta):
     for od in ("site-private", "site2", "outside", "outside/sub"):
         for p, cls in [("/../" + od + "/", "dotdot-dir"), ("/%2e%2e/" + od + "/", "encoded-dotdot-dir"), ("/../" + od, "dotdot-dir-noslash"), ("/..%2f" + od + "%2f", "encoded-slash-dir")]:
             yield p, cls, "outside-dir", None
+    for d in meta.get("index_link_dirs", []):
+        drel = "/" + "/".join(enc(s) for s in rel_segments(meta, d))
+        yield drel + "/", "dir-with-symlinked-index", "symlink", None
+        yield drel, "dir-with-symlinked-index-noslash", "symlink", None
     for link, target in meta["links"]:
         lrel = "/" + "/".join(enc(s) for s in rel_segments(meta, link))
         yield lrel, "symlink-itself", "symlink", None
